@@ -191,7 +191,7 @@ def faces_for(ext, n, kappa):
     return out
 
 
-def solve_once(cls, mms, ext, n, kappa, bckinds, tset, tmode, lam, lunit=1.0, order='diff-first', periodic=(), route='plain'):
+def solve_once(cls, mms, ext, n, kappa, bckinds, tset, tmode, lam, lunit=1.0, order='diff-first', periodic=(), route='plain', refreshed=False):
     """lunit: the same problem expressed in another length unit (faces of length-like axes, D, u, boundary a rescaled by their
     dimension; the oracle stays in the original unit). order: which matrix terms are built first on the shared mesh."""
     faces = faces_for(ext, n, kappa)
@@ -246,20 +246,37 @@ def solve_once(cls, mms, ext, n, kappa, bckinds, tset, tmode, lam, lunit=1.0, or
     Lpsi = np.broadcast_to(mms.spatial(qc, adv, src), g.dims)
     psi_c = np.broadcast_to(mms.psi(qc), g.dims)
     terms0 = []
+    # refreshed: the coefficient objects were used before with other values and got the values of this problem in place
+    mkfv = gen.facevar_refreshed if refreshed else gen.facevar
     for which in (('adv', 'src', 'diff') if order == 'adv-first' else ('diff', 'adv', 'src')):
         if which == 'diff':
-            terms0.append(-pf.diffusionTerm(gen.facevar(pf, m, Darr)))
+            terms0.append(-pf.diffusionTerm(mkfv(pf, m, Darr)))
         elif which == 'adv':
             if 'central' in tset:
-                terms0.append(pf.convectionTerm(gen.facevar(pf, m, uarr)))
+                terms0.append(pf.convectionTerm(mkfv(pf, m, uarr)))
             if 'upwind' in tset:
-                terms0.append(pf.convectionUpwindTerm(gen.facevar(pf, m, uarr)))
+                terms0.append(pf.convectionUpwindTerm(mkfv(pf, m, uarr)))
         elif src:
             terms0.append(pf.linearSourceTerm(pf.CellVariable(m, np.broadcast_to(mms.beta(qc), g.dims).copy())))
     V = g.vol_exact()
     with np.errstate(all='ignore'):
         if tmode == 'steady':
             bc_at(0.0)
+            if refreshed:
+                # another grid of the same class and shape (all lengths x 1.37) has just been given boundary conditions with the very
+                # same coefficient arrays (a parameter study over the domain size): nothing of it may reach this problem
+                try:
+                    ms_ = gen.build_mesh(pf, cls, [np.asarray(f_, dtype=float) * lunit * 1.37 if AXKIND[cls][k_] in ('len', 'rad') else f_ for k_, f_ in enumerate(faces)], decoy=False)
+                    BCs_ = pf.BoundaryConditions(ms_)
+                    for k_ in range(nd):
+                        for sd_ in SIDES[k_]:
+                            fo_, fs_ = getattr(BC, sd_), getattr(BCs_, sd_)
+                            fs_.a, fs_.b, fs_.c = np.array(fo_.a, copy=True), np.array(fo_.b, copy=True), np.array(fo_.c, copy=True)
+                            fs_.periodic = fo_.periodic
+                    pf.boundaryConditionsTerm(BCs_)
+                    pf.CellVariable(ms_, 0.0, BCs_)
+                except ValueError:
+                    pass
             phi = pf.CellVariable(m, 0.0, BC)
             gamma = Lpsi * mms.g(0.0)
             src_vec = pf.constantSourceTerm(pf.CellVariable(m, gamma.copy()))
@@ -373,7 +390,7 @@ def run_case(case):
         nn = [n0 * mult] * nd
         if strip is not None:
             nn[strip] = 1
-        r = solve_once(cls, mms, ext, nn, kappa, bckinds, tset, tmode, lam, lunit=float(case.get('lunit') or 1.0), order=case.get('order', 'diff-first'), periodic=per_axes, route=case.get('route', 'plain'))
+        r = solve_once(cls, mms, ext, nn, kappa, bckinds, tset, tmode, lam, lunit=float(case.get('lunit') or 1.0), order=case.get('order', 'diff-first'), periodic=per_axes, route=case.get('route', 'plain'), refreshed=bool(case.get('refreshed')))
         if r is None:
             return {'verdict': 'inconclusive', 'key': 'singular', 'msg': 'non-finite solution', 'nontrivial': False, 'cov': {}}
         errs.append(r)
@@ -385,7 +402,7 @@ def run_case(case):
     need_order, need_red = (None, 2.5) if first_order else (1.4, 5.0)
     bcv = ''.join(case['bc'][:2 * nd])
     key = '%s/%s/%s/%s/%s/%s/%s/%s/%s/%s/%s/%s' % (cls, spacing, bcv, tset, tmode, case.get('usign'), case.get('pe'), case.get('lunit'), case.get('order'), strip, per_axes, case.get('route'))
-    cov = {'cases:%s' % cls: 1, 'tset:%s' % tset: 1, 'tmode:%s' % tmode: 1, 'spacing:%s' % spacing: 1, 'solves': 3,
+    cov = {'cases:%s' % cls: 1, 'coefficient_objects:%s' % ('refreshed-in-place+sibling-bcs' if case.get('refreshed') else 'fresh'): 1, 'tset:%s' % tset: 1, 'tmode:%s' % tmode: 1, 'spacing:%s' % spacing: 1, 'solves': 3,
            'order:%s' % case.get('order', 'diff-first'): 1, 'route:%s' % case.get('route', 'plain'): 1, 'strip:%s' % ('yes' if strip is not None else 'no'): 1, 'periodic:%s' % ('yes' if per_axes else 'no'): 1, 'length_unit:%s' % ('1' if not case.get('lunit') else ('small' if case['lunit'] < 1 else 'large')): 1}
     for ch in set(bcv):
         cov['bc:' + ch] = 1
@@ -480,7 +497,7 @@ def plan(tier, seed):
             # before the diffusion matrix on the shared mesh (every second case)
             lunit = [None, None, 1e-8, None, None, None, 1e6][i % 7] if tier == 'quick' else [None, 1e-8, None, 3e-10, 1e6][i % 5]
             cases.append({'cls': cls, 'spacing': spacing, 'bc': list(bc), 'tset': tset, 'tmode': tmode, 'n0': n0, 'usign': usign, 'pe': pe, 'seed': [seed, 2, ci, i],
-                          'lunit': lunit, 'order': 'adv-first' if i % 2 else 'diff-first', 'route': ['plain', 'list-twice', 'matrix', 'zero-alpha'][i % 4] if tmode == 'steady' else 'plain'})
+                          'lunit': lunit, 'order': 'adv-first' if i % 2 else 'diff-first', 'route': ['plain', 'list-twice', 'matrix', 'zero-alpha'][i % 4] if tmode == 'steady' else 'plain', 'refreshed': (i // 2) % 2 == 1})
             i += 1
     # strips (one cell across, both orientations, flow along the strip and across it) and periodic axes (full circle / periodic box)
     for ci, cls in enumerate(CLASSES):
